@@ -89,3 +89,83 @@ func VH_C17_Renew() {
 	vh.Assert(lhs == rhs, "costs + rollovers do not fund the new contract, tax and fee exactly")
 	vh.Reach("end")
 }
+
+// NewContract + ContractCost: the two parties' costs fund the contract, its tax
+// and the fee exactly; the contract satisfies the consensus value relations
+func VH_C17_Form() {
+	var p HostPrices
+	vh.Fill("prices", &p)
+	var cp RPCFormContractParams
+	vh.Fill("cp", &cp)
+	var hostKey types.PublicKey
+	var hostAddr types.Address
+	var fee types.Currency
+	vh.Fill("hostkey", &hostKey)
+	vh.Fill("hostaddr", &hostAddr)
+	vh.Fill("fee", &fee)
+	vh.Assume(vh.And(vhSmall(p.ContractPrice), vhSmall(cp.Allowance), vhSmall(cp.Collateral), vhSmall(fee), cp.ProofHeight < 1<<40))
+	var fc types.V2FileContract
+	var u Usage
+	vh.Assert(!vh.Panics(func() { fc, u = NewContract(p, cp, hostKey, hostAddr) }), "NewContract panics")
+	vh.Assert(vh.And(fc.MissedHostValue.Cmp(fc.HostOutput.Value) <= 0, fc.TotalCollateral.Cmp(fc.HostOutput.Value) <= 0, fc.Filesize <= fc.Capacity,
+		fc.ExpirationHeight > fc.ProofHeight, fc.MissedHostValue.Cmp(fc.TotalCollateral) <= 0), "new contract violates consensus value relations")
+	vh.Assert(vh.And(fc.RenterOutput.Value == cp.Allowance, fc.RenterOutput.Address == cp.RenterAddress, fc.HostOutput.Address == hostAddr,
+		fc.RenterPublicKey == cp.RenterPublicKey, fc.HostPublicKey == hostKey, fc.RevisionNumber == 0, fc.ProofHeight == cp.ProofHeight), "new contract does not carry the requested terms")
+	vh.Assert(vh.And(u.RPC == p.ContractPrice, u.RenterCost() == p.ContractPrice), "formation usage is not the contract price")
+	var cs consensus.State
+	var rc, hc types.Currency
+	vh.Assert(!vh.Panics(func() { rc, hc = ContractCost(cs, fc, fee) }), "ContractCost panics")
+	tax := cs.V2FileContractTax(fc)
+	vh.Assert(vhAdd(rc, hc) == vhAdd(vhAdd(vhAdd(fc.RenterOutput.Value, fc.HostOutput.Value), tax), fee), "costs do not fund the contract, tax and fee exactly")
+	vh.Assert(vh.And(hc == cp.Collateral, rc == vhAdd(vhAdd(vhAdd(cp.Allowance, p.ContractPrice), fee), tax)), "cost split: host pays its collateral, renter the rest")
+	vh.Reach("end")
+}
+
+// RefreshContract{Partial,Full}Rollover + RefreshCost from a contract in the
+// state RHP4 keeps it in (missed host value <= total collateral <= host output)
+func VH_C17_Refresh() {
+	fc := vhValidContract("fc")
+	vh.Assume(fc.MissedHostValue.Cmp(fc.TotalCollateral) <= 0)
+	var p HostPrices
+	vh.Fill("prices", &p)
+	var rp RPCRefreshContractParams
+	vh.Fill("rp", &rp)
+	var hostAddr types.Address
+	var fee types.Currency
+	vh.Fill("hostaddr", &hostAddr)
+	vh.Fill("fee", &fee)
+	vh.Assume(vh.And(vhSmall(p.ContractPrice), vhSmall(rp.Allowance), vhSmall(rp.Collateral), vhSmall(fee)))
+	full := vh.Choice("variant", 2) == 1
+	var r types.V2FileContractRenewal
+	var u Usage
+	if full {
+		vh.Assert(!vh.Panics(func() { r, u = RefreshContractFullRollover(fc, p, hostAddr, rp) }), "RefreshContractFullRollover panics")
+	} else {
+		vh.Assert(!vh.Panics(func() { r, u = RefreshContractPartialRollover(fc, p, hostAddr, rp) }), "RefreshContractPartialRollover panics")
+	}
+	nc := r.NewContract
+	// what consensus demands of a renewal
+	total := vhAdd(vhAdd(vhAdd(r.FinalRenterOutput.Value, r.RenterRollover), r.FinalHostOutput.Value), r.HostRollover)
+	vh.Assert(total == vhAdd(fc.RenterOutput.Value, fc.HostOutput.Value), "final outputs + rollovers != value of the old contract")
+	vh.Assert(vhAdd(r.FinalRenterOutput.Value, r.RenterRollover) == fc.RenterOutput.Value, "renter: final output + rollover != old output")
+	vh.Assert(vhAdd(r.FinalHostOutput.Value, r.HostRollover) == fc.HostOutput.Value, "host: final output + rollover != old output")
+	vh.Assert(vhAdd(r.RenterRollover, r.HostRollover).Cmp(vhAdd(nc.RenterOutput.Value, nc.HostOutput.Value)) <= 0, "rollover exceeds the new contract's cost")
+	vh.Assert(vh.And(nc.MissedHostValue.Cmp(nc.HostOutput.Value) <= 0, nc.TotalCollateral.Cmp(nc.HostOutput.Value) <= 0, nc.MissedHostValue.Cmp(nc.TotalCollateral) <= 0),
+		"refreshed contract violates the value relations")
+	// the data stays covered: same file, same window, same keys, fresh revision number
+	vh.Assert(vh.And(nc.Filesize == fc.Filesize, nc.Capacity == fc.Capacity, nc.FileMerkleRoot == fc.FileMerkleRoot, nc.ProofHeight == fc.ProofHeight,
+		nc.ExpirationHeight == fc.ExpirationHeight, nc.RenterPublicKey == fc.RenterPublicKey, nc.HostPublicKey == fc.HostPublicKey, nc.RevisionNumber == 0,
+		nc.HostOutput.Address == hostAddr, nc.RenterOutput.Address == fc.RenterOutput.Address), "refresh changes the file, window or keys")
+	// collateral already at risk stays at risk, the new collateral is added on top
+	vh.Assert(nc.RiskedCollateral() == fc.RiskedCollateral(), "refresh changes the collateral at risk for the stored data")
+	vh.Assert(nc.TotalCollateral.Cmp(rp.Collateral) >= 0, "refreshed contract locks less than the requested collateral")
+	vh.Assert(vh.And(u.RPC == p.ContractPrice, u.RiskedCollateral == nc.RiskedCollateral()), "refresh usage")
+	var cs consensus.State
+	var rc, hc types.Currency
+	vh.Assert(!vh.Panics(func() { rc, hc = RefreshCost(cs, p, r, fee) }), "RefreshCost panics")
+	tax := cs.V2FileContractTax(nc)
+	lhs := vhAdd(vhAdd(vhAdd(rc, hc), r.RenterRollover), r.HostRollover)
+	rhs := vhAdd(vhAdd(vhAdd(nc.RenterOutput.Value, nc.HostOutput.Value), tax), fee)
+	vh.Assert(lhs == rhs, "costs + rollovers do not fund the refreshed contract, tax and fee exactly")
+	vh.Reach("end")
+}
